@@ -27,3 +27,38 @@ def cfg_basic(prop: str, n: int = 2, others=("other",), flags=None, other_msgs=0
     init.update({k: [] for k in ("Archive", "Deleted Messages", "Drafts", "Junk", "Sent Messages")} if mode == "run" else {})
     return {"prop": prop, "name": name or tname, "template": tmpl, "init": init, "mode": mode, "driver": "h",
             "loopopts": loopopts or {}}
+
+
+def cfg_diverged(prop: str, n: int = 2, extra: int = 2, flags=None, others=("other",), other_msgs=0, name=None, loopopts=None):
+    """A non-initial starting state: INBOX whose MH keys and UIDs have diverged.
+
+    m1..m<n+1> are appended (UID i, key i), the last one is expunged, then d1..d<extra> are appended:
+    MH hands out key n+1 again while UIDs continue at n+2.  flags: {position (1-based, in the final
+    mailbox): flag string}, given to the messages when they are appended."""
+    flags = flags or {}
+    tname = f"div-{n}-{extra}-{'-'.join(others)}-{other_msgs}-" + "-".join(f"{k}{v}" for k, v in sorted(flags.items())).replace("\\", "")
+
+    def setup(w, s):
+        for mb in others:
+            templates.must_ok(s, f"CREATE {mb}")
+        for i in range(1, n + 2):
+            templates.append(s, "INBOX", f"m{i}", flags.get(i, "") if i <= n else "", n=i)
+        templates.must_ok(s, "SELECT INBOX")
+        templates.must_ok(s, f"UID STORE {n + 1} +FLAGS.SILENT (\\Deleted)")
+        templates.must_ok(s, f"UID EXPUNGE {n + 1}")
+        templates.must_ok(s, "UNSELECT")
+        for j in range(1, extra + 1):
+            templates.append(s, "INBOX", f"d{j}", flags.get(n + j, ""), n=20 + j)
+        for i in range(1, other_msgs + 1):
+            templates.append(s, others[0], f"o{i}", "", n=100 + i)
+
+    tmpl = templates.build(tname, setup)
+    inbox = [(i, f"m{i}", set(flags.get(i, "").split()), msgs.idate_epoch(i)) for i in range(1, n + 1)]
+    inbox += [(n + 1 + j, f"d{j}", set(flags.get(n + j, "").split()), msgs.idate_epoch(20 + j)) for j in range(1, extra + 1)]
+    init = {"INBOX": inbox}
+    for mb in others:
+        init[mb] = []
+    if other_msgs:
+        init[others[0]] = [(i, f"o{i}", set(), msgs.idate_epoch(100 + i)) for i in range(1, other_msgs + 1)]
+    return {"prop": prop, "name": name or tname, "template": tmpl, "init": init, "mode": "new", "driver": "h",
+            "uidnext": {"INBOX": n + extra + 2}, "loopopts": loopopts or {}}
